@@ -398,4 +398,199 @@ theorem h8_handleResendRequest (g0 : G8) (s : Sess) (m : InMsg) (hn : (s.st.logg
       | h8_close
       | exact H8.after hv' (h8_processReject g0 s' m _ hn')
 
+/-! ## 6. Logon handling -/
+
+def Rej.isTooHigh : Rej → Bool
+  | .tooHigh _ _ => true
+  | _ => false
+
+def LogonErr.isTooHigh : LogonErr → Bool
+  | .rej r => r.isTooHigh
+  | .other => false
+
+theorem checkTooLow_notTooHigh (s : Sess) (m : InMsg) (r : Rej) (h : checkTooLow s m = some r) : r.isTooHigh = false := by
+  unfold checkTooLow at h
+  repeat' split at h
+  all_goals (cases h <;> rfl)
+
+theorem verifyAppImpl_notTooHigh (s : Sess) (m : InMsg) (r : Rej) (h : (verifyAppImpl s m).2 = some r) : r.isTooHigh = false := by
+  unfold verifyAppImpl at h
+  split at h
+  · rename_i hv
+    unfold validate at hv
+    split at hv
+    · cases hv; cases h; rfl
+    · cases hv
+  · simp only [] at h
+    unfold callbackVerdict at h
+    repeat' split at h
+    all_goals (cases h <;> rfl)
+
+/-- without the too-high check no too-high verdict -/
+theorem verifySelect_notTooHigh (s : Sess) (m : InMsg) (tl ai : Bool) (r : Rej)
+    (h : (verifySelect s m false tl ai).2 = some r) : r.isTooHigh = false := by
+  unfold verifySelect at h
+  split at h
+  · rename_i r' hb
+    cases h
+    unfold checkBeginString at hb
+    repeat' split at hb
+    all_goals (cases hb <;> rfl)
+  · split at h
+    · rename_i r' hb
+      cases h
+      unfold checkCompID at hb
+      repeat' split at hb
+      all_goals (cases hb <;> rfl)
+    · split at h
+      · rename_i r' hb
+        cases h
+        split at hb
+        · cases hb
+        · unfold checkSendingTime at hb
+          repeat' split at hb
+          all_goals (cases hb <;> rfl)
+      · split at h
+        · rename_i r' hb
+          cases h
+          split at hb
+          · exact checkTooLow_notTooHigh s m _ hb
+          · cases hb
+        · split at h
+          · rename_i r' hb
+            simp at hb
+          · split at h
+            · exact verifyAppImpl_notTooHigh s m r h
+            · cases h
+
+theorem ctl_none_seq (s : Sess) (m : InMsg) (h : checkTooLow s m = none) : ∃ n, getInt m 34 = .val n := by
+  unfold checkTooLow at h
+  cases hg : getInt m 34 with
+  | missing => simp [hg] at h
+  | garbled => simp [hg] at h
+  | val n => exact ⟨n, rfl⟩
+
+/-- with the too-low check passed, MsgSeqNum is readable -/
+theorem verifySelect_none_seq (s : Sess) (m : InMsg) (th ai : Bool) (h : (verifySelect s m th true ai).2 = none) :
+    ∃ n, getInt m 34 = .val n := by
+  unfold verifySelect at h
+  repeat' split at h
+  all_goals (try cases h)
+  all_goals exact ctl_none_seq s m (by assumption)
+
+macro "q_cases" : tactic => `(tactic| (
+  (repeat' split)
+  all_goals (try dsimp only)
+  all_goals (repeat' split)
+  all_goals (try dsimp only)
+  all_goals q_peel))
+
+theorem p_logonReply (b : Bool) (g0 : G8) (s : Sess) (m : InMsg) (flag : Bool) : P b g0 s (logonReply s m flag) := by
+  unfold logonReply
+  q_cases
+
+/-- the part of `handleLogon` before `logonFinish`: either it ends early with an error that is not a too-high
+    verdict, or it reaches `logonFinish` with a readable MsgSeqNum; neutral steps only, in every state -/
+theorem handleLogon_shape (g0 : G8) (s : Sess) (m : InMsg) (hk : isAdminKind (kindOf m) = true) :
+    (∃ e, (handleLogon s m).2 = some e ∧ e.isTooHigh = false ∧ P true g0 s (handleLogon s m).1) ∨
+    (∃ x, P true g0 s x ∧ handleLogon s m = logonFinish x m ∧ ∃ n, getInt m 34 = .val n) := by
+  unfold handleLogon
+  split
+  · exact Or.inl ⟨_, rfl, rfl, P.refl _ _ _⟩
+  · generalize hs1 : (if (!s.cfg.initiator && s.cfg.refreshOnLogon) = true then s.emit Obs.refresh else s) = s1
+    have h1 : P true g0 s s1 := by rw [← hs1]; q_peel
+    simp only []
+    have hv := pn_verifyAppImpl g0 s1 m (Or.inr hk)
+    have hnt := verifyAppImpl_notTooHigh s1 m
+    generalize verifyAppImpl s1 m = r at hv hnt
+    obtain ⟨s2, o⟩ := r
+    simp only [] at hv hnt
+    have h2 := h1.pn hv
+    cases o with
+    | some r => exact Or.inl ⟨_, rfl, hnt r rfl, h2⟩
+    | none =>
+      simp only []
+      generalize hs3 : (if ((if s2.cfg.initiator = true then false else s2.cfg.resetOnLogon) || logonResetFlag m && !s2.sentReset) = true
+          then s2.storeReset else s2) = s3
+      have h3 : P true g0 s s3 := by rw [← hs3]; q_peel
+      have hv2 := pn_verifySelect g0 s3 m false true false (Or.inr (Or.inr rfl))
+      have hnt2 := verifySelect_notTooHigh s3 m true false
+      have hseq := verifySelect_none_seq s3 m false false
+      generalize verifySelect s3 m false true false = r2 at hv2 hnt2 hseq
+      obtain ⟨s4, o2⟩ := r2
+      simp only [] at hv2 hnt2 hseq
+      have h4 := h3.pn hv2
+      cases o2 with
+      | some r => exact Or.inl ⟨_, rfl, hnt2 r rfl, h4⟩
+      | none => exact Or.inr ⟨_, h4.trans (p_logonReply true g0 s4 m _), rfl, hseq rfl⟩
+
+/-- `logonFinish` with a readable MsgSeqNum: the notification, then either a too-high verdict or the number consumed -/
+theorem logonFinish_spec (x : Sess) (m : InMsg) (n : Int) (hn : getInt m 34 = .val n) :
+    let y := ((x.setSentReset false).emit (.armPeer (1200 * x.hb))).emit .onLogon
+    logonFinish x m = (incrTarget y, none) ∨ ∃ a b, logonFinish x m = (y, some (.rej (.tooHigh a b))) := by
+  unfold logonFinish checkTooHigh
+  simp only [hn]
+  split
+  · rename_i r hr
+    split at hr
+    · cases hr; exact Or.inr ⟨_, _, rfl⟩
+    · cases hr
+  · exact Or.inl rfl
+
+/-- in a state that has been logged on the logon notification changes nothing in the automaton -/
+theorem pn_onLogon_again (g0 : G8) (s : Sess) (hn : (s.st.loggedOn || s.st.isLogout) = true) : PN g0 s (s.emit .onLogon) := by
+  refine pn_emit_fix g0 s _ (fun hW => ?_)
+  rw [c8o_onLogon]
+  have h2 : (g8Of g0 s).cb = true := by rw [hW.cb]; exact hn
+  have h3 := hW.hs h2
+  generalize g8Of g0 s = g at h2 h3
+  cases g; simp_all
+
+theorem p_logonFinish_notif (g0 : G8) (x : Sess) (m : InMsg) (hn : (x.st.loggedOn || x.st.isLogout) = true) :
+    P true g0 x (logonFinish x m).1 := by
+  have hy : P true g0 x (((x.setSentReset false).emit (.armPeer (1200 * x.hb))).emit .onLogon) :=
+    (by q_peel : P true g0 x ((x.setSentReset false).emit (.armPeer (1200 * x.hb)))).pn (pn_onLogon_again g0 _ hn)
+  unfold logonFinish
+  simp only []
+  split
+  · exact hy
+  · exact qpeel_incrTarget hy
+
+theorem p_handleLogon_notif (g0 : G8) (s : Sess) (m : InMsg) (hk : isAdminKind (kindOf m) = true)
+    (hn : (s.st.loggedOn || s.st.isLogout) = true) : P true g0 s (handleLogon s m).1 := by
+  rcases handleLogon_shape g0 s m hk with ⟨e, _, _, h⟩ | ⟨x, hx, heq, _⟩
+  · exact h
+  · rw [heq]; exact hx.trans (p_logonFinish_notif g0 x m (by rw [hx.fr.st]; exact hn))
+
+theorem kind_admin_of_beq (m : InMsg) (k : String) (hk : (kindOf m == k) = true) (ha : isAdminKind k = true) : isAdminKind (kindOf m) = true := by
+  have : kindOf m = k := by simpa using hk
+  rw [this]; exact ha
+
+theorem h8_inSessionFixMsgIn (g0 : G8) (s : Sess) (m : InMsg) (hn : (s.st.loggedOn || s.st.isLogout) = true) :
+    H8 g0 s (inSessionFixMsgIn s m) := by
+  have hnl := notif_not_logon hn
+  unfold inSessionFixMsgIn
+  simp only []
+  split
+  · rename_i hk
+    have hl := p_handleLogon_notif g0 s m (kind_admin_of_beq m "A" hk (by decide)) hn
+    generalize handleLogon s m = r at hl
+    obtain ⟨s', o⟩ := r
+    cases o <;> (dsimp only; h8_close)
+  · split
+    · exact h8_handleLogout g0 s m hn
+    · split
+      · exact h8_handleResendRequest g0 s m hn
+      · split
+        · exact h8_handleSequenceReset g0 s m hn
+        · split
+          · exact h8_handleTestRequest g0 s m hn
+          · have hv := pn_verifySelect g0 s m true true true (Or.inl hn)
+            generalize verifySelect s m true true true = r at hv
+            obtain ⟨s', o⟩ := r
+            have hv' : P true g0 s s' := P.ofPN true hv
+            cases o with
+            | some r => exact H8.after hv' (h8_processReject g0 s' m r (by rw [hv.fr.st]; exact hn))
+            | none => dsimp only; h8_close
+
 end Qfx.Sess
